@@ -54,6 +54,8 @@ class Sim(object):
         self.log = EventLog()
         self.ops = []
         self.counter = {}
+        self.ctor = stream(seed, "ctor")   # the constructor client has its own stream and its own object kinds, so
+        #                                    the operations of all other clients are what they were without it
         self.provenance = {}     # strand name -> (graph name, start, bits name, fast, table)
         self.flags = {}          # pair name -> (ins, del)
 
@@ -446,6 +448,70 @@ class Sim(object):
             return {"op": "RNG", "action": "seed", "value": rng.choice([0, 1, 2021, rng.getrandbits(31)])}
         return {"op": "RNG", "action": action, "n": rng.choice([1, 3, 16, 257])}
 
+    def client_constructor(self):
+        """Builds filters from lists it keeps (and shares between filters), uses them, and builds again (C20: a
+        constructor call is a call, the motif list and the G+C bounds are its arguments)."""
+        rng, store = self.ctor, self.world.store
+        filters = store.names("cfilter")
+        what = weighted(rng, [("lists", 1 if store.names("motifs") else 6), ("build", 4), ("valid", 3 if filters else 0),
+                              ("find", 1.5 if filters else 0), ("tiny", 2.5)])
+        if what == "tiny":
+            # arc removal and scoring on graphs that are (nearly) exhausted: one arc, a loop, a two-cycle, a few arcs
+            tiny = store.names("xacc")
+            if not tiny or (len(tiny) < 3 and rng.random() < 0.3):
+                k = rng.choice([2, 2, 3])
+                n = 4 ** k
+                rows = [[-1] * 4 for _ in range(n)]
+                shape = rng.choice(["arc", "loop", "two-cycle", "few", "few"])
+                if shape == "loop":
+                    rows[0][0] = 0
+                elif shape == "two-cycle":
+                    u, v = (1, 4) if k == 2 else (17, 4)          # AC <-> CA / ACAC... : u -> v -> u
+                    rows[u][v % 4], rows[v][u % 4] = v, u
+                else:
+                    for _ in range(1 if shape == "arc" else rng.randint(2, 4)):
+                        u, j = rng.randrange(n), rng.randrange(4)
+                        rows[u][j] = (u * 4 + j) % n
+                return {"op": "NEW", "kind": "xgraph", "name": self.fresh_name("X"), "k": k, "arcs": G.rows_to_arcs(rows)}
+            acc = rng.choice(tiny)
+            lm = acc[:-4] + ".lm"
+            if rng.random() < 0.75:
+                return {"op": "CALL", "fn": "remove_nasty_arc", "verbose": rng.random() < 0.5,
+                        "args": {"accessor": ["ref", acc], "latter_map": ["ref", lm], "iteration": ["lit", 0],
+                                 "has_insertion": ["lit", rng.random() < 0.6], "has_deletion": ["lit", rng.random() < 0.6]}}
+            return {"op": "CALL", "fn": "calculate_intersection_score", "verbose": rng.random() < 0.5,
+                    "args": {"latter_map": ["ref", lm], "has_insertion": ["lit", rng.random() < 0.6],
+                             "has_deletion": ["lit", rng.random() < 0.6], "observed_length": ["lit", self.k_of(acc)]}}
+        if what == "lists":
+            k = rng.choice(sorted(set(self.k_of(n) for n in store.names("mask"))) or [2])
+            cfg = G.random_filter(rng, k)
+            motifs = cfg["motifs"] or ["".join(rng.choice(M.NT) for _ in range(rng.randint(1, k)))]
+            self.do({"op": "NEW", "kind": "motifs", "name": self.fresh_name("U"), "k": k, "items": motifs})
+            return {"op": "NEW", "kind": "gcr", "name": self.fresh_name("R"), "k": k, "items": cfg["gc"] or [0.25, 0.75]}
+        if what == "build":
+            m = (lambda names: rng.choice(names) if names else None)(store.names("motifs"))
+            if m is None:
+                return None
+            k = self.k_of(m)
+            r = (lambda names: rng.choice(names) if names else None)(store.names("gcr", lambda n: self.k_of(n) == k))
+            return {"op": "CALL", "fn": "LocalBioFilter",
+                    "store": {"": {"kind": "cfilter", "name": self.fresh_name("CF"), "k": k}},
+                    "args": {"observed_length": ["lit", k],
+                             "max_homopolymer_runs": ["lit", rng.choice([None, 1, 2, k])],
+                             "gc_range": ["ref", r] if r and rng.random() < 0.7 else ["lit", None],
+                             "undesired_motifs": ["ref", m] if rng.random() < 0.85 else ["lit", None]}}
+        f = rng.choice(filters)
+        if what == "valid":
+            strands = store.names("strand")
+            if not strands:
+                return None
+            return {"op": "CALL", "fn": "filter.valid", "args": {"self": ["ref", f], "dna_sequence": ["ref", rng.choice(strands)],
+                                                               "only_last": ["lit", rng.random() < 0.5]}}
+        # the filter's own window need not be the length of the k-mers it is asked to screen
+        k = min(4, max(1, self.k_of(f) + rng.choice([0, 0, -1, 1])))
+        return {"op": "CALL", "fn": "find_vertices", "verbose": rng.random() < 0.3,
+                "args": {"observed_length": ["lit", k], "bio_filter": ["ref", f]}}
+
     def client_clock(self):
         return {"op": "CLOCK", "behaviour": self.rng.choice(CLOCKS), "cseed": self.rng.getrandbits(20)}
 
@@ -459,14 +525,20 @@ class Sim(object):
         if self.ctx.violation is None:
             self.setup()
         table = [(name, w) for name, w in sorted(self.prof["clients"].items())]
-        misses, base = 0, len(self.ops)
-        while self.ctx.violation is None and len(self.ops) - base < self.max_ops and misses < 40:
+        misses, base, extra = 0, len(self.ops), 0
+        while self.ctx.violation is None and len(self.ops) - base - extra < self.max_ops and misses < 40:
             client = weighted(self.sched, table)
             op = getattr(self, "client_" + client)()
             if op is None or any(v[0] == "ref" and v[1] is None for v in op.get("args", {}).values()):
                 misses += 1
                 continue
             self.do(op)
+            if self.prop == "C20" and self.ctx.violation is None and self.ctor.random() < 0.15:
+                before = len(self.ops)
+                op = self.client_constructor()
+                if op is not None:
+                    self.do(op)
+                extra += len(self.ops) - before
         return self.ctx.violation
 
 
